@@ -277,9 +277,9 @@ def adopt (d : Dir) (s : NodeSt) (name : Str) (r : LRes) : NodeSt :=
     | some c => if c.id = id then { s with kids := (name, c, false) :: s.kids } else s
     | none => s
   | .whiteout id _ _ _ =>
-    match getChild d.children (mkWh name) with
-    | some w => if w.id = id then { s with kids := (name, w, true) :: s.kids } else s
-    | none => s
+    match getChild d.children name, getChild d.children (mkWh name) with
+    | none, some w => if w.id = id then { s with kids := (name, w, true) :: s.kids } else s
+    | _, _ => s
   | _ => s
 
 /-- `node.Getattr` / `whiteout.Getattr` of the inode a Lookup returned. -/
